@@ -16,7 +16,7 @@ def configs(tier):
                     cfgs.append({'kind': 'array', 'content': content, 'meta': meta, 'route': route, 'dtype': dt})
         for content in ('empty', 'zerosubs', 'nonempty'):
             for meta in (False, True):
-                for route in ('create', 'createro'):
+                for route in ('create', 'createro', 'copy'):
                     cfgs.append({'kind': 'ragged', 'content': content, 'meta': meta, 'route': route, 'dtype': dt})
     return cfgs
 
@@ -24,12 +24,12 @@ def configs(tier):
 def run(tier):
     return run_graphs(
         'C11', tier, FACTORY, configs(tier), keep={'mode'},
-        single_outcome_ok=('mode', 'metamode', 'reopen_default', 'reopen_rw'),
+        single_outcome_ok=('mode', 'metamode', 'reopen_default', 'reopen_rw', 'badopen'),
         rule=('state = files + live handle; every mutating entry point (a[0]=v, a[:]=v, a[...]=v, append of a row / of zero '
               'rows, iterappend of a row / empty / zero rows, truncate 0 / -1, delete, metadata update/setitem/pop/popitem/del) '
               'is a transition from every reachable state; in mode r it must raise and leave a recursive byte snapshot '
               'identical, in mode r+ (valid calls) it must return and its effect be observed; modes are reached through creation '
-              'with accessmode=r (create_array, asarray, copy, create_raggedarray, asraggedarray), default reopen, assignment '
+              'with accessmode=r (create_array, asarray, Array.copy, create_raggedarray, asraggedarray, RaggedArray.copy), default reopen, a refused open_array(accessmode="rw") in between, assignment '
               'and any sequence of switches (the graph closes over them); arrays with first axis 0, ragged arrays with no '
               'subarrays and with only zero-length subarrays included'),
         assumptions=['length bound 2 rows / subarrays'])
